@@ -872,6 +872,9 @@ class Normalizer:
         if op == "getitem" and isinstance(a[1], Term) and a[1].op in ("argmin", "argmax") and len(a[1].args) == 1 and a[1].args[0] == a[0]:
             # x[argmin(x)] is min(x)
             return self.nf(Term("amin" if a[1].op == "argmin" else "amax", a[0]))
+        if op in ("amax", "amin") and len(a) == 1 and isinstance(a[0], Term) and a[0].op in ("svd_S", "rsvd_S"):
+            # singular values come sorted in decreasing order: the largest is the first one
+            return self.nf(Term("getitem", a[0], Term("const", Fraction(0 if op == "amax" else -1))))
         if op in ("min", "max"):
             kids = []
             for x in a:
@@ -1007,8 +1010,25 @@ class Normalizer:
                 elif len(fs) == 1 and fs[0][1] == 2:
                     pq = (fs[0][0], fs[0][0])
                 if pq is not None:
-                    inner2 = frozenset([((s, (pq[0], t_atom(pq[1], self.symmetric))), k)])
+                    def as_poly(atom):
+                        if atom.op == "chain":
+                            return frozenset([((EMPTY_S, tuple(atom.kids)), ONE)])
+                        if atom.op == "poly":
+                            return atom.kids[0]
+                        return frozenset([((EMPTY_S, (atom,)), ONE)])
+
+                    prod = p_matmul(as_poly(pq[0]), p_T(as_poly(pq[1]), self.symmetric))
+                    inner2 = p_had(frozenset([((s, ()), k)]), prod)
                     out = p_add(out, self.linear_reduce("trace", (None,), cyclic=True, inner=inner2))
+                    continue
+            if op == "sum" and has_axis and len(rest) == 1 and len(chain) >= 2:
+                # column sums of dg(w) @ R are w @ R ; row sums of R @ dg(w) are R @ w
+                ax_ = rest[0][1] if isinstance(rest[0], tuple) and rest[0][0] == "axis" else None
+                if ax_ == Fraction(0) and chain[0].op == "dg":
+                    out = p_add(out, p_had(frozenset([((s, ()), k)]), p_matmul(chain[0].kids[0], frozenset([((EMPTY_S, chain[1:]), ONE)]))))
+                    continue
+                if ax_ == Fraction(1) and chain[-1].op == "dg":
+                    out = p_add(out, p_had(frozenset([((s, ()), k)]), p_matmul(frozenset([((EMPTY_S, chain[:-1]), ONE)]), chain[-1].kids[0])))
                     continue
             atom = A(op, chain_atom(chain) if chain else A("one"), *rest)
             if cyclic or not has_axis:
